@@ -159,6 +159,15 @@ package astits
 //@   let oPW = oLTW + ite(hasLTW, 2, 0)
 //@   let oSS = oPW + ite(hasPW, 3, 0)
 //@   let consumed = ite(L > 0, ite(hasExt, ite(extLen > 0, oSS + ite(hasSS, 5, 0), oExt + 1), oExt), 1)
+//@   at read PacketAdaptationField.HasOPCR#0 assert cutOPCR: i.offset == o + oOPCR
+//@   at read PacketAdaptationField.HasSplicingCountdown#0 assert cutSplice: i.offset == o + oSplice
+//@   at read PacketAdaptationField.HasTransportPrivateData#0 assert cutPriv: i.offset == o + oPriv
+//@   at read PacketAdaptationField.HasAdaptationExtensionField#0 assert cutExt: i.offset == o + oExt
+//@   at read PacketAdaptationField.HasAdaptationExtensionField#0 assert cutPrivData: hasPriv && privLen > 0 ==> len(a.TransportPrivateData) == privLen && bytesOf(a.TransportPrivateData) == old(bytesOf(i.bs[i.offset + oPriv + 1 : i.offset + oPriv + 1 + privLen]))
+//@   at read PacketAdaptationExtensionField.HasLegalTimeWindow#0 assert cutLTW: i.offset == o + oLTW
+//@   at read PacketAdaptationExtensionField.HasPiecewiseRate#0 assert cutPW: i.offset == o + oPW
+//@   at read PacketAdaptationExtensionField.HasSeamlessSplice#0 assert cutSS: i.offset == o + oSS
+//@   at call (*astikit.BytesIterator).Offset#1 assert cutEnd: i.offset == o + consumed
 //@   ensures [C11,C16] fresh: err == nil ==> a != nil && fresh(a)
 //@   ensures [C11,C02] length: err == nil ==> a.Length == L
 //@   ensures [C11,C03] offset: err == nil ==> i.offset == o + consumed
@@ -173,7 +182,7 @@ package astits
 //@   ensures [C11] noopcr: err == nil && !hasOPCR ==> a.OPCR == nil
 //@   ensures [C11] splice: err == nil && hasSplice ==> a.SpliceCountdown == int(old(ib(i, oSplice)))
 //@   ensures [C11] privlen: err == nil && hasPriv ==> a.TransportPrivateDataLength == privLen
-//@   ensures [C11] privdata: err == nil && hasPriv && privLen > 0 ==> len(a.TransportPrivateData) == privLen && forall(k, 0, privLen, a.TransportPrivateData[k] == old(ib(i, oPriv + 1 + k)))
+//@   ensures [C11] privdata: err == nil && hasPriv && privLen > 0 ==> len(a.TransportPrivateData) == privLen && bytesOf(a.TransportPrivateData) == old(bytesOf(i.bs[i.offset + oPriv + 1 : i.offset + oPriv + 1 + privLen]))
 //@   ensures [C11,C16,C07,C01] privfresh: err == nil && hasPriv && privLen > 0 ==> fresh(a.TransportPrivateData)
 //@   ensures [C11] noprivdata: err == nil && !(hasPriv && privLen > 0) ==> len(a.TransportPrivateData) == 0
 //@   ensures [C11] ext: err == nil ==> (a.AdaptationExtensionField != nil) == hasExt
@@ -202,7 +211,7 @@ package astits
 //@   modifies i.offset
 //@   ensures erriff: (err != nil) == (len(i.bs) < old(i.offset) + n)
 //@   ensures ok: err == nil ==> len(bs) == n && cap(bs) == n && fresh(bs) && i.offset == old(i.offset) + n
-//@   ensures content: err == nil ==> forall(k, 0, n, bs[k] == old(ib(i, k)))
+//@   ensures content: err == nil ==> bytesOf(bs) == old(bytesOf(i.bs[i.offset : i.offset + n]))
 //@   ensures fail: err != nil ==> i.offset == old(i.offset) && len(bs) == 0 && bs == nil
 
 //@ func (*astikit.BytesIterator).NextBytesNoCopy
@@ -240,4 +249,4 @@ package astits
 //@   let o = old(i.offset)
 //@   ensures empty: o >= len(i.bs) ==> bs == nil && len(bs) == 0 && i.offset == o
 //@   ensures some: o < len(i.bs) ==> len(bs) == len(i.bs) - o && fresh(bs) && i.offset == len(i.bs)
-//@   ensures content: o < len(i.bs) ==> forall(k, 0, len(i.bs) - o, bs[k] == old(ib(i, k)))
+//@   ensures content: o < len(i.bs) ==> bytesOf(bs) == old(bytesOf(i.bs[i.offset:]))
